@@ -467,6 +467,18 @@ class ExecBase:
                         t = ty_from_ast(param_ann[n.value.id], fi.globals)
                         if t is not None:
                             return t
+        for n in ast.walk(fi.node):
+            if isinstance(n, ast.Assign) and isinstance(n.value, ast.Constant):
+                for tg in n.targets:
+                    if isinstance(tg, ast.Attribute) and tg.attr == attr and isinstance(tg.value, ast.Name) \
+                            and tg.value.id == selfname:
+                        cv = n.value.value
+                        if isinstance(cv, bool):
+                            return T.Bool
+                        if isinstance(cv, int):
+                            return T.Int
+                        if isinstance(cv, str):
+                            return T.Str
         raise Unsupported(f"no type known for field {definer.__name__}.{attr} (add it to the schema)")
 
     def field_key(self, definer: type, attr: str) -> str:
@@ -496,6 +508,8 @@ class ExecBase:
             st = st.assume(self.type_constraint(v))
         if k == "refu":
             st = st.assume(term > 0, term < ALLOC0, z3.Or([g for g, _ in v.alts]))
+        if k == "list":
+            st = st.assume(term < ALLOC0 + st.nalloc)   # a stored list exists already (never a not-yet-allocated address)
         return v, st
 
     def write_field(self, ref: VRef, definer: type, attr: str, val: V, st: State) -> State:
